@@ -247,6 +247,8 @@ type RestrictedPrefixPermutationIterator struct {
 
 	l []int
 	u []int
+
+	done bool
 }
 
 //RestrictedPrefixPermutations returns an iterator which iterates over all permutations a_1 a_2 ... a_n of {0, ..., n-1} which pass the tests f([]int{a_1}), f([]int{a_1,a_2}) ... f([]int{a_1,...,a_n}).
@@ -280,6 +282,8 @@ func (iter *RestrictedPrefixPermutationIterator) Next() bool {
 		if n == 0 {
 			return true
 		}
+	} else if iter.done {
+		return false
 	} else {
 		//Not the first call so the last thing we did was visit a permutation.
 		goto x6
@@ -314,6 +318,7 @@ x5:
 x6:
 	k--
 	if k < 0 {
+		iter.done = true
 		return false
 	}
 	p = iter.u[k]
